@@ -2,6 +2,7 @@ package rules
 
 import (
 	"go/ast"
+	"go/token"
 	"go/types"
 	"sort"
 	"strings"
@@ -509,7 +510,7 @@ func c06Handler(p *chk.Prog, r *chk.Report) {
 	for _, c := range g.FindPat("RECV.convergeBalancer(ETC)") {
 		x.Check("SetBalancer:converge-behind-pools-known", c.Pos(), g.Dominated(c, g.GPat(false, "RECV.pools == nil || RECV.pools.ByName == nil")), "", "convergeBalancer can run before any pool configuration was received")
 	}
-	es := g.EdgesImplying(g.GErrNil(false, "RECV.client.UpdateStatus(_)"))
+	es := g.DirectEdgesImplying(g.GErrNil(false, "RECV.client.UpdateStatus(_)"))
 	if len(es) != 1 {
 		x.Fail("SetBalancer:updatestatus-error-branch", f.Pos(), "the error of UpdateStatus is not checked")
 		return
@@ -519,7 +520,60 @@ func c06Handler(p *chk.Prog, r *chk.Report) {
 		return ok && len(rs.Results) == 1 && isObjNamed(f, ctrlPkg+".SyncStateError")(rs.Results[0])
 	}
 	w := g.BranchAlways(es[0], isErrRet)
-	x.Check("SetBalancer:failed-write-returns-SyncStateError", posOf(w, f), !w.Found, "", "a failed status write does not return SyncStateError (no retry)")
+	okRet := !w.Found
+	if !okRet {
+		// the write moved into a step of its own that hands the error back (expanded in place: `_inlNrK = err; goto L; L: err :=
+		// _inlNrK; if err != nil { return SyncStateError }`): on the branch the error is handed to a result variable whose
+		// non-nil value always returns SyncStateError
+		handed := map[types.Object]bool{}
+		w1 := g.BranchAlways(es[0], func(n ast.Node) bool {
+			if as, isAs := n.(*ast.AssignStmt); isAs && as.Tok == token.ASSIGN && len(as.Lhs) == len(as.Rhs) {
+				for i, l := range as.Lhs {
+					if id, isId := l.(*ast.Ident); isId && inlineResult.MatchString(id.Name) && !f.IsNilLit(as.Rhs[i]) && isErrorTyped(f, as.Rhs[i]) {
+						handed[f.ObjOf(id)] = true
+						return true
+					}
+				}
+			}
+			return isErrRet(n)
+		})
+		okRet = !w1.Found && len(handed) > 0
+		for o := range handed {
+			o := o
+			nonNil := chk.GFunc(func(ft chk.Fact) bool {
+				xx, yy, eq, ok := chk.EqParts(ft)
+				if !ok || eq {
+					return false
+				}
+				other := xx
+				if f.IsNilLit(xx) {
+					other = yy
+				} else if !f.IsNilLit(yy) {
+					return false
+				}
+				id, isId := ast.Unparen(other).(*ast.Ident)
+				if !isId {
+					return false
+				}
+				if f.ObjOf(id) == o {
+					return true
+				}
+				rhs, _ := g.DefOf(id, g.FactSite(id))
+				rid, isR := ast.Unparen(rhs).(*ast.Ident)
+				return rhs != nil && isR && f.ObjOf(rid) == o
+			})
+			es2 := g.DirectEdgesImplying(nonNil)
+			if len(es2) == 0 {
+				okRet = false
+			}
+			for _, e2 := range es2 {
+				if g.BranchAlways(e2, isErrRet).Found {
+					okRet = false
+				}
+			}
+		}
+	}
+	x.Check("SetBalancer:failed-write-returns-SyncStateError", posOf(w, f), okRet, "", "a failed status write does not return SyncStateError (no retry)")
 	mut := f.ContainsCallTo(allocA+"Unassign", allocA+"Assign", allocA+"Allocate", allocA+"AllocateFromPool", allocA+"AllocateFromPoolForAdditionalFamily", allocA+"SetPools")
 	start := chk.Site{G: g, B: es[0].B.Succs[es[0].K], I: 0}
 	w2 := (&chk.Walk{G: g, From: start, Inclusive: true, Hit: mut}).Run()
